@@ -73,6 +73,16 @@ def make_directive(name, hooks, marks):
             ctx["log"].append(["out", name, t, "exit", render(r)])
             return mark(r, post("out", t)) if marks else r
         ns["on_pre_output_coercion"] = on_pre_output_coercion
+    # every other implementation INHERITS its hooks (from a base class, or half of them from a mixin): a hook is a hook
+    # wherever in the class hierarchy it is defined
+    import zlib
+    style = zlib.crc32(name.encode()) % 3
+    if style == 1:
+        return type("Tagger_" + name, (type("TaggingHooks_" + name, (), ns),), {})()
+    if style == 2 and len(ns) >= 2:
+        ks = sorted(ns)
+        mixin = type("HooksMixin_" + name, (), {k: ns[k] for k in ks[: len(ks) // 2]})
+        return type("Tagger_" + name, (mixin,), {k: ns[k] for k in ks[len(ks) // 2:]})()
     return type("Tagger_" + name, (), ns)()
 
 class IdScalar:
